@@ -1,3 +1,6 @@
 //! Independent, spec-based writers and parsers for the file formats rustzx reads.
 pub mod lh5;
+pub mod sna;
+pub mod szx;
+pub mod tap;
 pub mod vtx;
